@@ -383,8 +383,8 @@ func genMismatch(rng *rand.Rand, o genOpts, engine string) *scn {
 	L := 6 + rng.Intn(o.MaxLen-5)
 	future := 0
 	s := &scn{Engine: engine, Sched: "serial", Seed: rng.Int63n(1 << 30), Salt: rng.Uint32(), Parents: linearParents(L + future)}
-	c := 2 + rng.Intn(L-2)  // checkpoint height (tree index c-1)
-	f := rng.Intn(c - 1)    // last common height (0 = genesis): evil branch starts at height f+1 <= c-1 ... c
+	c := 2 + rng.Intn(L-2)   // checkpoint height (tree index c-1)
+	f := rng.Intn(c - 1)     // last common height (0 = genesis): evil branch starts at height f+1 <= c-1 ... c
 	m := c - f + rng.Intn(3) // long enough to reach the checkpoint height
 	side := []int{}
 	for j := 0; j < m; j++ {
